@@ -8,6 +8,7 @@ import (
 	"sort"
 	"strings"
 	"sync"
+	"sync/atomic"
 	"time"
 
 	"github.com/PowerDNS/lightningstream/config"
@@ -30,8 +31,9 @@ type crashBucket struct {
 	next      int
 	events    *[]string
 	failStore int
-	failLoad  map[string]int // name prefix -> remaining failures
-	cleaner   int            // instance whose cleaner is running (-1 = none)
+	lastUp    map[int]time.Time // instance -> time of its last successful upload
+	failLoad  map[string]int    // name prefix -> remaining failures
+	cleaner   int               // instance whose cleaner is running (-1 = none)
 	lost      []string
 	onUpload  func(inst int, name string) string
 	instIndex func(name string) int
@@ -111,6 +113,9 @@ func (b *crashBucket) Store(ctx context.Context, name string, data []byte) error
 	if msg := b.onUpload(inst, name); msg != "" {
 		b.lost = append(b.lost, msg)
 	}
+	if b.lastUp != nil {
+		b.lastUp[inst] = time.Now()
+	}
 	*b.events = append(*b.events, fmt.Sprintf("EUpload %d", inst))
 	b.checkMonotone(before, b.joinNewest(ctx), "upload of "+name)
 	return nil
@@ -128,6 +133,21 @@ func (b *crashBucket) Delete(ctx context.Context, name string) error {
 	}
 	b.checkMonotone(before, b.joinNewest(ctx), fmt.Sprintf("delete of %s by the cleaner of instance %d", name, b.cleaner))
 	return nil
+}
+
+// instBucket is the bucket as ONE instance's process sees it: its List calls can be made to fail (the storage is
+// unreachable from that host) without disturbing the other instances
+type instBucket struct {
+	*crashBucket
+	failList *int32
+}
+
+func (b instBucket) List(ctx context.Context, prefix string) (simpleblob.BlobList, error) {
+	if atomic.AddInt32(b.failList, -1) >= 0 {
+		return nil, errors.New("injected List failure")
+	}
+	atomic.StoreInt32(b.failList, 0)
+	return b.crashBucket.Interface.List(ctx, prefix)
 }
 
 func (b *crashBucket) Load(ctx context.Context, name string) ([]byte, error) {
@@ -154,9 +174,13 @@ type crashInst struct {
 	running  bool
 	prevBy   map[string]time.Time
 	// bookkeeping for the own-first oracle
-	ownAtStart   bool
-	listedOwnSeq int
-	mergedOwn    bool
+	ownAtStart      bool
+	listedOwnSeq    int
+	mergedOwn       bool
+	uploadedThisRun bool
+	maxOwnMerged    int
+	lastWrite       time.Time // last application transaction that really committed
+	failList        *int32    // List calls of this instance's process still to fail
 }
 
 func areaCrash(r *Rng, n int, dir string) (*AreaOut, error) {
@@ -171,7 +195,7 @@ func areaCrash(r *Rng, n int, dir string) (*AreaOut, error) {
 		var events []string
 		var evMu sync.Mutex
 		insts := make([]*crashInst, ni)
-		bk := &crashBucket{Interface: memory.New(), seqOf: map[string]int{}, instOf: map[string]int{}, events: &events, failLoad: map[string]int{}, cleaner: -1}
+		bk := &crashBucket{Interface: memory.New(), seqOf: map[string]int{}, instOf: map[string]int{}, events: &events, failLoad: map[string]int{}, lastUp: map[int]time.Time{}, cleaner: -1}
 		bk.instIndex = func(name string) int {
 			pn, err := snapshot.ParseName(name)
 			if err != nil {
@@ -190,31 +214,46 @@ func areaCrash(r *Rng, n int, dir string) (*AreaOut, error) {
 				return ""
 			}
 			in := insts[inst]
-			if in.ownAtStart && !in.mergedOwn {
-				// still has own snapshots in the bucket?
-				ls, _ := bk.Interface.List(context.Background(), dbName+"__"+in.name+"__")
-				cnt := 0
-				for _, nm := range ls.Names() {
-					if nm != name {
-						cnt++
-					}
+			if in.uploadedThisRun {
+				return "" // every later upload of this process follows its own previous upload
+			}
+			in.uploadedThisRun = true
+			// the FIRST upload of this process: the newest snapshot its name has in the bucket right now (it may be
+			// older than the one listed at start-up when a cleaner removed that one meanwhile) must have been merged
+			// by this process, or a newer one of its own
+			ls, _ := bk.Interface.List(context.Background(), dbName+"__"+in.name+"__")
+			newest := -1
+			for _, nm := range ls.Names() {
+				if q, ok := bk.seqOf[nm]; ok && nm != name && q > newest {
+					newest = q
 				}
-				if cnt > 0 {
-					return fmt.Sprintf("own-first: instance %s uploaded %s before merging its own newest snapshot (sequence %d) although its name still has snapshots in the bucket", in.name, name, in.listedOwnSeq)
-				}
+			}
+			if newest >= 0 && in.maxOwnMerged < newest {
+				return fmt.Sprintf("own-first: instance %s uploaded %s as the first snapshot of this process before merging its own newest snapshot in the bucket (sequence %d; newest own snapshot merged by this process: %d, -1 = none; listed at start-up: %d)", in.name, name, newest, in.maxOwnMerged, in.listedOwnSeq)
 			}
 			return ""
 		}
 		_ = ownFirst
 
+		forced := r.Chance(35)
+		unsafeNames := r.Chance(50)
 		newInst := func(i int, env *lmdb.Env, closeEnv func()) (*crashInst, error) {
-			in := &crashInst{idx: i, name: fmt.Sprintf("n%d", i), env: env, closeEnv: closeEnv}
-			sy, err := newSyncer(env, bk, syncerOpts{Native: native, DupHack: true, Instance: in.name, Mod: func(c *config.Config, lc *config.LMDB) {
+			// configured instance names contain characters outside the safe alphabet (as host names do): LS uses the
+			// sanitised form everywhere (snapshot names, the set of instances it waits for)
+			in := &crashInst{idx: i, name: fmt.Sprintf("n-%d", i), env: env, closeEnv: closeEnv, failList: new(int32)}
+			cfgName := fmt.Sprintf("n.%d", i)
+			if unsafeNames {
+				cfgName = fmt.Sprintf("n_%d", i)
+			}
+			sy, err := newSyncer(env, instBucket{bk, in.failList}, syncerOpts{Native: native, DupHack: true, Instance: cfgName, Mod: func(c *config.Config, lc *config.LMDB) {
 				c.StorageRetryCount = 3
 				c.StoragePollInterval = 3 * time.Millisecond
 				c.LMDBPollInterval = 2 * time.Millisecond
 				c.StorageRetryInterval = 2 * time.Millisecond
 				c.Storage.Cleanup = config.Cleanup{Enabled: true, Interval: time.Hour, MustKeepInterval: time.Second, RemoveOldInstancesInterval: 30 * time.Minute}
+				if forced {
+					c.StorageForceSnapshotInterval = 30 * time.Millisecond // periodic forced snapshots (scaled down from hours)
+				}
 			}})
 			if err != nil {
 				return nil, err
@@ -230,6 +269,8 @@ func areaCrash(r *Rng, n int, dir string) (*AreaOut, error) {
 			sort.Strings(names)
 			in.ownAtStart = len(names) > 0
 			in.mergedOwn = false
+			in.uploadedThisRun = false
+			in.maxOwnMerged = -1
 			in.listedOwnSeq = -1
 			if len(names) > 0 {
 				in.listedOwnSeq = bk.seqOf[names[len(names)-1]]
@@ -254,6 +295,9 @@ func areaCrash(r *Rng, n int, dir string) (*AreaOut, error) {
 								events = append(events, fmt.Sprintf("EMerge %d %d", in.idx, q))
 								if inst == in.name && q == in.listedOwnSeq {
 									in.mergedOwn = true
+								}
+								if inst == in.name && q > in.maxOwnMerged {
+									in.maxOwnMerged = q
 								}
 							}
 						}
@@ -301,7 +345,11 @@ func areaCrash(r *Rng, n int, dir string) (*AreaOut, error) {
 			insts[i] = in
 		}
 		write := func(in *crashInst) {
+			i0, _ := in.env.Info()
 			_ = applyApp(in.env, native, uint64(time.Now().UnixNano()), genAppOps(r, native, false, 1+r.Intn(2)))
+			if i1, _ := in.env.Info(); i0 != nil && i1 != nil && i1.LastTxnID != i0.LastTxnID {
+				in.lastWrite = time.Now()
+			}
 		}
 		settle := func(d time.Duration) { time.Sleep(d) }
 
@@ -330,7 +378,15 @@ func areaCrash(r *Rng, n int, dir string) (*AreaOut, error) {
 					return fail(err)
 				}
 				insts[in.idx] = kin
+				kin.lastWrite = in.lastWrite
+				klf := r.Chance(20) // the storage is unreachable for the first listing of the new process (it retries after 1 s)
+				if klf {
+					atomic.StoreInt32(kin.failList, 1)
+				}
 				start(kin)
+				if klf {
+					settle(1100 * time.Millisecond)
+				}
 				restarts++
 				settle(40 * time.Millisecond)
 			case k < 8: // restart with an EMPTIED LMDB under the same name
@@ -354,7 +410,14 @@ func areaCrash(r *Rng, n int, dir string) (*AreaOut, error) {
 				if r.Chance(60) {
 					write(nin) // the application writes before the old state is back
 				}
+				listFails := r.Chance(20)
+				if listFails {
+					atomic.StoreInt32(nin.failList, 1)
+				}
 				start(nin)
+				if listFails {
+					settle(1100 * time.Millisecond) // the start-up listing is retried after one second
+				}
 				restarts++
 				settle(time.Duration(20+r.Intn(60)) * time.Millisecond)
 			case k < 10: // cleaner of this instance, far in the future
@@ -382,7 +445,45 @@ func areaCrash(r *Rng, n int, dir string) (*AreaOut, error) {
 			}
 		}
 		settle(60 * time.Millisecond)
+		// C09: with storage healthy again and nothing else happening, every running instance publishes what its
+		// application committed (bounded wait; an instance whose Sync returned, e.g. after exhausting the Store
+		// retry budget, is a dead process and publishes at its next start)
+		bk.mu.Lock()
+		bk.failStore = 0
+		for k := range bk.failLoad {
+			bk.failLoad[k] = 0
+		}
+		bk.mu.Unlock()
+		var unpublished []string
+		deadline := time.Now().Add(4 * time.Second)
+		for {
+			unpublished = unpublished[:0]
+			for _, in := range insts {
+				if in == nil || !in.running || in.lastWrite.IsZero() {
+					continue
+				}
+				select {
+				case err := <-in.done:
+					in.done <- err // Sync returned: not a running process any more
+					continue
+				default:
+				}
+				bk.mu.Lock()
+				up := bk.lastUp[in.idx]
+				bk.mu.Unlock()
+				if !up.After(in.lastWrite) {
+					unpublished = append(unpublished, fmt.Sprintf("instance %s: application commit at %s, last upload at %s (zero = never)", in.name, in.lastWrite.Format("15:04:05.000"), up.Format("15:04:05.000")))
+				}
+			}
+			if len(unpublished) == 0 || time.Now().After(deadline) {
+				break
+			}
+			time.Sleep(10 * time.Millisecond)
+		}
 		cleanup()
+		for _, u := range unpublished {
+			out.Oracle = append(out.Oracle, OracleFailure{"C09", "unpublished-after-settle", "4 s after the last event, storage healthy: " + u, map[string]any{"native": native, "events": lst(events)}})
+		}
 
 		evMu.Lock()
 		cs := fmt.Sprintf("mkCC %s", lst(events))
